@@ -96,14 +96,19 @@ class C04(core.Check):
                 # the standard exit pair: a take-profit LIMIT and a stop-loss STOP, each for the whole base
                 b = float(w.e.assets['BTC'])
                 stop_now = False
-                for typ, p in (('LIMIT', price + 3), ('STOP', price - 3)):
-                    if ref.would_reject('sell', typ, b, p):
+                # … or a PARTIAL take-profit with a full-size stop: when both fill, the stop is clamped to what is left
+                frac = r.choice([1, 1, 0.5, 0.25])
+                for typ, p, qq in (('LIMIT', price + 3, b * frac), ('STOP', price - 3, b)):
+                    if ref.would_reject('sell', typ, qq, p):
                         continue
-                    ok = w.submit(0, 'sell', typ, b, p, True)
+                    ok = w.submit(0, 'sell', typ, qq, p, True)
                     if not ok:
+                        if oracle:
+                            # the cash account accepts it (it plus the resting sells of its kind does not exceed the base held)
+                            verdict = ('rejection', w.lines[-1], 'rejected', 'accepted')
                         stop_now = True
                         break
-                    ref.submit(len(w.s.orders) - 1, 'sell', typ, b, p)
+                    ref.submit(len(w.s.orders) - 1, 'sell', typ, qq, p)
                 if stop_now:
                     break
                 continue
